@@ -165,6 +165,9 @@ Definition pm_model (c : list Z * nat * bool * nat * list (list nat) * (Z * Z) *
             # one thread, in both implementations, every kind of exception, failing at the first, a middle and the last element
             *[dict(xs=[7, 3, 5], threads=1, sort=True, chunksize=(0 if w == 'iter' else 1000), orders=[[0, 1, 2]], a=1, b=0,
                    fails=[f], which=w, exc=e) for w in ('iter', 'threading') for e in sorted(EXC) for f in (7, 3, 5)],
+            # the iterable is a string (of several characters, of one, empty)
+            *[dict(xs=xs, threads=t, sort=True, chunksize=(0 if w == 'iter' else 1000), orders=[list(range(len(xs)))] if xs else [], a=2, b=1,
+                   fails=[], which=w, kind='str') for w in ('threading', 'iter') for t in (1, 2) for xs in ([97, 98, 99, 100, 101], [120], [])],
             # every kind of exception, without sorting, with threads
             *[dict(xs=[7, 3, 5, 9], threads=2, sort=False, chunksize=2, orders=[[1, 0], [0, 1]], a=1, b=0,
                    fails=[f], which='threading', exc=e) for e in sorted(EXC) for f in (3, 9)],
@@ -239,15 +242,20 @@ Definition pm_model (c : list Z * nat * bool * nat * list (list nat) * (Z * Z) *
                     release[x].set()
         ctl = threading.Thread(target=controller, daemon=True)
         ctl.start()
+        # a string is an iterable of its characters like any other (the items are the code points then)
+        if case.get('kind') == 'str':
+            items, fun = ''.join(chr(x) for x in xs), (lambda c: f(ord(c)))
+        else:
+            items, fun = iterable_of(xs, case.get('kind', 'list')), f
         try:
             if case['which'] == 'threading':
                 from taskchain.utils.threading import parallel_map
                 extra = {} if case.get('total') is None else {'total': case['total']}
-                res = parallel_map(f, iterable_of(xs, case.get('kind', 'list')), threads=case['threads'], sort=case['sort'],
+                res = parallel_map(fun, items, threads=case['threads'], sort=case['sort'],
                                    use_tqdm=False, chunksize=case['chunksize'], **extra)
             else:
                 from taskchain.utils.iter import parallel_map
-                res = parallel_map(f, iterable_of(xs, case.get('kind', 'list')), threads=case['threads'])
+                res = parallel_map(fun, items, threads=case['threads'])
             out = dict(result=[r.args[0] if isinstance(r, Custom) else r for r in res],
                        wrapped=sorted(x for x, r in zip(xs, res) if isinstance(r, Custom)) if case['sort'] else None)
         except tuple(EXC.values()) as e:
